@@ -52,6 +52,12 @@ CLAIMED = {
             "a pure sinusoid peaks at its bin (frames 2-4 quick / 8 thorough, any leading shape); get_tps_time_axis = k*frame_rate/n for symbolic "
             "frame rate and n <= 9 quick / a range up to 101 thorough (odd n included)",
             "'follows the analytic structure function on generated screens' is statistical - outside."),
+    "C20": ("5 C20", "for 55 public entry points (list in the evidence; foreign-kernel functions named as skipped) on symbolic arrays and every "
+            "feasible path: every array argument term-identical after the call (shape, dtype tag, every element; nested list arguments of "
+            "CovarianceMatrix included), a second call returns the same terms, results of two calls share no storage and a call made after "
+            "the first result was overwritten in place returns the same (memoised arrays are caught), batch results = single-item results; "
+            "gkl_fcom argument purity with arbitrary eigh outputs; replays run in a process forked from the pristine state", 
+            "symbolic arrays stand for float64/complex128 arrays (numpy.asarray with a matching dtype aliases); float32 inputs are outside."),
     "C17": ("5 C17", "all converters of atmos_conversions and _astronomy: the six inverse pairs (explicit and default wavelength), "
             "composites = compositions, scaling exponents (lambda^(6/5), Cn2^(-3/5), lambda^(-1/5), r0^(-5/3), d^(-1/3)), "
             "single-layer theta0/tau0 = C r0/h with 0.313<C<0.315, axis argument = loop over profiles for rank 1-3 arrays and every "
